@@ -54,7 +54,7 @@ theorem goAwayGracefully_step {X : String → Prop} {c : Conn} (hc : ConnOK c) :
       rw [hpp, hp]
       simp
     rw [heq]
-    refine ⟨⟨d.ga.congr rfl rfl, ?_, (d.rd hc.rd).keep rfl (.of_eq rfl)⟩, d.hist⟩
+    refine ⟨⟨d.ga.congr rfl rfl, ?_, (d.rd hc.rd).keep rfl (.of_eq rfl rfl)⟩, d.hist⟩
     intro p hp'
     have : p = { payload := Generated.Consts.PING_SHUTDOWN_PAYLOAD, sent := false } := by
       have h' : some ({ payload := Generated.Consts.PING_SHUTDOWN_PAYLOAD, sent := false } : PendingPing) = some p := hp'
@@ -80,10 +80,10 @@ theorem goAwayFromUser_cs {X : String → Prop} {c : Conn} (hi : GoAwayInv c) (e
 -- ===================================================================== windows
 
 /-- `Connection::set_target_window_size` -/
-theorem setTargetWindowSize_cs {X : String → Prop} {c : Conn} (hi : GoAwayInv c) (size : Nat) :
+theorem setTargetWindowSize_cs {X : String → Prop} {c : Conn} (hi : GoAwayInv c) (size : Nat) (hs : size ≤ 2147483647) :
     CS X c (c.setTargetWindowSize size) :=
   .viewKeep hi rfl (ConnCtlP.view_setTargetConnectionWindow' c.streams size) rfl rfl rfl
-    (.op1 (.setTargetConnectionWindow size) trivial rfl rfl rfl)
+    (.op1 (.setTargetConnectionWindow size) hs rfl rfl rfl)
 
 -- (`set_initial_window_size` puts an INITIAL_WINDOW_SIZE in flight: not part of this variant)
 
